@@ -195,6 +195,10 @@ pub struct Fault {
 pub struct Shared<C: ChipModel> {
     pub chip: C,
     pub fault: Option<Fault>,
+    /// the faulted SPI transaction reaches the chip all the same and only the host sees an error (a
+    /// transfer that failed on its way back): what the chip did for it - a FIFO pointer that moved on,
+    /// say - is done
+    pub fault_executes: bool,
     /// the SPI transaction right after the planned fault is lost as well (the recovery's first
     /// bus access fails too)
     pub also_next_spi: bool,
@@ -217,7 +221,7 @@ pub struct Shared<C: ChipModel> {
 pub type Bus<C> = Rc<RefCell<Shared<C>>>;
 
 pub fn new_bus<C: ChipModel>(chip: C) -> Bus<C> {
-    Rc::new(RefCell::new(Shared { chip, fault: None, also_next_spi: false, second_hit: None, n_spi: 0, n_busy: 0, n_irq: 0, fault_hit: None, last_cmd: 0, last_mosi: vec![], fault_mosi: vec![], resets: 0, delays_ns: 0 }))
+    Rc::new(RefCell::new(Shared { chip, fault: None, fault_executes: false, also_next_spi: false, second_hit: None, n_spi: 0, n_busy: 0, n_irq: 0, fault_hit: None, last_cmd: 0, last_mosi: vec![], fault_mosi: vec![], resets: 0, delays_ns: 0 }))
 }
 
 impl<C: ChipModel> Shared<C> {
@@ -288,6 +292,11 @@ impl<C: ChipModel> SpiDevice<u8> for SpiDev<C> {
         sh.last_mosi = mosi[..mosi.len().min(4)].to_vec();
         let n = sh.n_spi;
         if sh.due(FaultKind::Spi, n) {
+            if sh.fault_executes {
+                sh.chip.tick();
+                let _ = sh.chip.spi(&mosi);
+                return Err(SpiFault);
+            }
             sh.chip.log_lost(&mosi, "SPI-FAULT(lost)");
             sh.chip.tick();
             return Err(SpiFault);
